@@ -84,7 +84,8 @@ def run_cases(ctx, seeds, tables, with_model=True):
     nproc = 16
     chunks = [(seeds[i::nproc], tables) for i in range(nproc) if seeds[i::nproc]]
     with mp.get_context('fork').Pool(len(chunks)) as pool:
-        results = [r for part in pool.map(_worker, chunks) for r in part]
+        from vlib import cov
+        results = [r for part in cov.pmap(ctx, pool, _worker, chunks, tag=('compared' if with_model else 'monitored')) for r in part]
     results.sort(key=lambda r: r['seed'])
     sa, sb = ctx.corr(COMP_A), ctx.corr(COMP_B)
     for r in results:
